@@ -694,6 +694,9 @@ pub enum MemberForm {
     NamedStruct,
     TupleStruct,
     Enum,
+    /// like `Enum`, but the variant with the fields has the explicit index 7: next to an `Enum` member with the
+    /// same fields the two shapes differ in nothing but a variant index
+    EnumIdx,
 }
 
 #[derive(Clone, Debug, PartialEq, Eq, Hash, Serialize, Deserialize)]
@@ -729,7 +732,7 @@ pub const ALL_PARAM_FORMS: [ParamForm; 6] = [
     ParamForm::TwoSecondSkipped,
     ParamForm::BitsSO,
 ];
-pub const ALL_MEMBER_FORMS: [MemberForm; 3] = [MemberForm::NamedStruct, MemberForm::TupleStruct, MemberForm::Enum];
+pub const ALL_MEMBER_FORMS: [MemberForm; 4] = [MemberForm::NamedStruct, MemberForm::TupleStruct, MemberForm::Enum, MemberForm::EnumIdx];
 
 impl FamState {
     pub fn program(&self) -> Program {
@@ -769,6 +772,13 @@ impl FamState {
                 MemberForm::Enum => Body::Enum(vec![
                     variant("A", Fields::Unit),
                     variant("B", Fields::Unnamed(tys.iter().cloned().map(Field::new).collect())),
+                ]),
+                MemberForm::EnumIdx => Body::Enum(vec![
+                    variant("A", Fields::Unit),
+                    Variant {
+                        index: Some(7),
+                        ..variant("B", Fields::Unnamed(tys.iter().cloned().map(Field::new).collect()))
+                    },
                 ]),
             };
             defs.push(Def {
@@ -908,10 +918,11 @@ pub fn defs_equiv(prog: &Program, a: usize, b_: usize, assumed: &mut HashSet<(us
     match (&da.body, &db.body) {
         (Body::Struct(x), Body::Struct(y)) => feq(x, y, assumed),
         (Body::Enum(x), Body::Enum(y)) => {
+            // the effective index: explicit, else the position
             x.len() == y.len()
-                && x.iter()
-                    .zip(y)
-                    .all(|(v1, v2)| v1.name == v2.name && v1.index == v2.index && feq(&v1.fields, &v2.fields, assumed))
+                && x.iter().zip(y).enumerate().all(|(i, (v1, v2))| {
+                    v1.name == v2.name && v1.index.unwrap_or(i as u8) == v2.index.unwrap_or(i as u8) && feq(&v1.fields, &v2.fields, assumed)
+                })
         }
         _ => false,
     }
